@@ -1,6 +1,7 @@
 (* C17 -- entry points evaluated by py/checks/C17.py (vm_compute).  Depends on
    definition files only (no proof file, no generated file). *)
-From PyRTL Require Export Analysis.Timing Analysis.Paths Analysis.Fanout.
+From PyRTL Require Export Analysis.Timing Analysis.Paths Analysis.Fanout Analysis.TimingOrd.
+From Coq Require Import Floats.
 
 Fixpoint net_index (ns : list net) (n : net) (i : Z) : Z :=
   match ns with
@@ -39,3 +40,17 @@ Definition c17_case (nl : netlist) (tab : list (Z * (Z * Z))) (cp_limit : Z)
     map (fun x => (mid x, mem_shape nl x)) (mems nl),
     map (fun row => (fst row, map (fun e => (fst e, map (path_ix nl) (snd e))) (snd row)))
         (paths_multi nl srcs dsts) ).
+
+(* ---- the same analysis in IEEE-754 binary64 (TimingOrd.v at D = float): delays are
+   given per net, in `nets` order, as float literals; results as (mantissa, exponent) ---- *)
+Definition idx_delay (nl : netlist) (ds : list float) (n : net) : float :=
+  nth (Z.to_nat (net_index (nets nl) n 0)) ds 0%float.
+
+Definition c17_float_case (nl : netlist) (ds : list float) (cp_limit : Z) :=
+  let dl := idx_delay nl ds in
+  let tm := f_timing_map nl dl in
+  ( map (fun x => match gassoc float tm (wname x) with
+                  | Some f => Some (float_pair f) | None => None end) (wires nl),
+    map fst tm,
+    float_pair (f_max_length nl dl),
+    map (fun wp => (fst wp, path_ix nl (snd wp))) (f_critical_path nl dl cp_limit) ).
